@@ -11,7 +11,11 @@ import rx.operators as rxops
 import rxsci as rs
 
 from . import funcs as F
-from .core import tap, InjectedFault
+from .core import tap, InjectedFault, canon
+
+
+def canon_exc(e):
+    return canon(e)
 
 
 class Invalid(Exception):
@@ -45,8 +49,9 @@ class Flags(object):
     """dual: only operators accepting both kinds of source, with the C01
     preconditions.  in_tee: inside a tee_map branch.  depth: nesting budget."""
 
-    def __init__(self, dual=False, in_tee=False, no_mut_stream=False, allow=None, deny=(), plain_only_ok=False):
+    def __init__(self, dual=False, in_tee=False, no_mut_stream=False, allow=None, deny=(), plain_only_ok=False, error_ops_ok=False):
         self.plain_only_ok = plain_only_ok
+        self.error_ops_ok = error_ops_ok
         self.dual = dual
         self.in_tee = in_tee
         self.no_mut_stream = no_mut_stream
@@ -54,7 +59,7 @@ class Flags(object):
         self.deny = set(deny)
 
     def sub(self, **kw):
-        f = Flags(self.dual, self.in_tee, self.no_mut_stream, self.allow, self.deny, self.plain_only_ok)
+        f = Flags(self.dual, self.in_tee, self.no_mut_stream, self.allow, self.deny, self.plain_only_ok, self.error_ops_ok)
         for k, v in kw.items():
             setattr(f, k, v)
         return f
@@ -113,6 +118,11 @@ def check_node(node, st, fl):
             raise Invalid('map type')
         return st.copy(t=f[2] if f[2] != 'any' or f[1] != 'any' else 'any')
     if op == 'starmap':
+        if node.get('site'):     # record-typed starmap (C13): the record is unpacked into its five fields
+            f = F.MAPS.get(node['fn'])
+            if f is None or t != 'rec' or f[1] != 'rec':
+                raise Invalid('starmap type')
+            return st.copy(t=f[2])
         f = F.STARS.get(node['fn'])
         if f is None or t != f[1]:
             raise Invalid('starmap type')
@@ -223,6 +233,10 @@ def check_node(node, st, fl):
         else:
             ot = 'any'
         return St(ot, empty, any(o.after_take for o in outs) or st.after_take, any(o.aliased for o in outs))
+    if op in ('ignore', 'error_map', 'router', 'drop_planned'):
+        if not fl.error_ops_ok:
+            raise Invalid('error handlers are generated by C13 only')
+        return st.copy(empty=True)
     if op == 'dist_update':
         if t not in NUM:
             raise Invalid('dist_update type')
@@ -314,6 +328,45 @@ DEFAULT_WEIGHTS = {
 }
 
 
+_BY_TYPE = {}
+
+
+def names_for(table, t, col=1, also_any=False):
+    key = (id(table), t, col, also_any)
+    r = _BY_TYPE.get(key)
+    if r is None:
+        r = sorted(n for n, f in table.items() if f[col] == t or (also_any and f[col] == 'any'))
+        _BY_TYPE[key] = r
+    return r
+
+
+def statically_applicable(op, t):
+    """Cheap necessary condition for `op` to accept items of type t (avoids rejection sampling)."""
+    if op == 'map':
+        return bool(names_for(F.MAPS, t)) or True
+    if op == 'starmap':
+        return t == 'pair'
+    if op == 'filter':
+        return bool(names_for(F.PREDS, t))
+    if op == 'flat_map':
+        return t == 'list'
+    if op == 'scan':
+        return bool(names_for(F.ACCS, t, 1, True))
+    if op in MATH:
+        return t in ('int', 'float', 'rec', 'pair')
+    if op in ('clip', 'to_array', 'dist_update'):
+        return t in NUM
+    if op == 'fill_none':
+        return t == 'optint'
+    if op == 'time_split':
+        return t == 'rec'
+    if op in ('group_by', 'split'):
+        return bool(names_for(F.KEYS, t))
+    if op == 'sort':
+        return t in ('int', 'float', 'pair')
+    return True
+
+
 class Gen(object):
     def __init__(self, rng, weights=None, max_nest=2, small=True):
         self.rng = rng
@@ -328,18 +381,20 @@ class Gen(object):
         r = self.rng
         t = st.t
         if op == 'map':
-            names = sorted(n for n, f in F.MAPS.items() if f[1] == t or (f[1] == 'any' and r.random() < 0.1))
+            names = names_for(F.MAPS, t)
+            if r.random() < 0.05 or not names:
+                names = names_for(F.MAPS, 'any')
             return [{'op': 'map', 'fn': r.choice(names)}] if names else []
         if op == 'starmap':
-            names = sorted(n for n, f in F.STARS.items() if f[1] == t)
+            names = names_for(F.STARS, t)
             return [{'op': 'starmap', 'fn': r.choice(names)}] if names else []
         if op == 'filter':
-            names = sorted(n for n, f in F.PREDS.items() if f[1] == t)
+            names = names_for(F.PREDS, t)
             return [{'op': 'filter', 'fn': r.choice(names)}] if names else []
         if op == 'flat_map':
             return [{'op': 'flat_map'}]
         if op == 'scan':
-            accs = sorted(n for n, a in F.ACCS.items() if _match(t, a[1]))
+            accs = names_for(F.ACCS, t, 1, True)
             if not accs:
                 return []
             a = r.choice(accs)
@@ -365,7 +420,7 @@ class Gen(object):
         if op == 'to_array':
             return [{'op': 'to_array', 'tc': 'q' if t == 'int' else 'd'}]
         if op == 'distinct_until_changed' or op == 'distinct':
-            keys = sorted(n for n, f in F.KEYS.items() if f[1] == t)
+            keys = names_for(F.KEYS, t)
             node = {'op': op}
             if keys and r.random() < 0.6:
                 node['key'] = r.choice(keys)
@@ -419,7 +474,7 @@ class Gen(object):
                 node['include'] = r.random() < 0.5
                 ist = St(t, node['closing'], False)
             else:
-                keys = sorted(n for n, f in F.KEYS.items() if f[1] == t)
+                keys = names_for(F.KEYS, t)
                 if not keys:
                     return []
                 node['key'] = r.choice(keys)
@@ -430,16 +485,22 @@ class Gen(object):
 
     def pipeline(self, st, fl, nest, length):
         nodes = []
-        ops = sorted(self.w)
+        all_ops = [o for o in sorted(self.w) if self.w[o] > 0]
         tries = 0
-        while len(nodes) < length and tries < 60:
+        cache = {}
+        while len(nodes) < length and tries < 40:
             tries += 1
-            weights = [self.w[o] for o in ops]
+            ck = (st.t, nest > 0)
+            ow = cache.get(ck)
+            if ow is None:
+                ops = [o for o in all_ops
+                       if not (fl.dual and o in MUX_ONLY) and o not in fl.deny and (fl.allow is None or o in fl.allow)
+                       and (nest > 0 or (o not in WINDOWS and o != 'tee_map')) and statically_applicable(o, st.t)]
+                ow = cache[ck] = (ops, [self.w[o] for o in ops])
+            ops, weights = ow
+            if not ops or st.aliased:
+                break
             op = self.rng.choices(ops, weights)[0]
-            if fl.dual and op in MUX_ONLY:
-                continue
-            if op in fl.deny or (fl.allow is not None and op not in fl.allow):
-                continue
             for node in self.candidates(op, st, fl, nest):
                 try:
                     st2 = check_node(node, st, fl)
@@ -606,6 +667,29 @@ def build_node(node, ctx, mode, path, i):
         for bi, b in enumerate(node['branches']):
             bs.append(rx.pipe(*build(b, ctx, mode, '%s/%d:b%d' % (path, i, bi))))
         return rs.ops.tee_map(*bs, join=node['join'])
+    if op == 'ignore':
+        return rs.error.ignore()
+    if op == 'error_map':
+        val = node.get('value')
+        if val == 'rec':
+            return rs.error.map(lambda e: F.Rec(e.args[1], e.args[2], -1, 0, False))
+        return rs.error.map(lambda e: val)
+    if op == 'router':
+        errors, route = rs.error.create_error_router()
+        dead = ctx.extra.setdefault('dead', [])
+
+        def dl_next(e):
+            ctx.g += 1
+            dead.append((ctx.g, ctx.seq, 'N', canon_exc(e)))
+
+        def dl_done():
+            ctx.g += 1
+            dead.append((ctx.g, ctx.seq, 'c', None))
+        errors.subscribe(on_next=dl_next, on_completed=dl_done, on_error=lambda e: dead.append((ctx.g, ctx.seq, 'e', canon_exc(e))))
+        return route()
+    if op == 'drop_planned':
+        plan = set(tuple(x) for x in ctx.extra.get('drop', {}).get(node['site'], ()))
+        return rs.ops.filter(lambda r: (r.k, r.n) not in plan)
     if op == 'dist_update':
         return rs.math.dist.update(bin_count=node.get('bins', 8), reduce=bool(node.get('reduce')))
     if op == 'sort':
